@@ -16,6 +16,37 @@ pub fn gen_stream(r: &mut Rng, i: u64, small: bool) -> (String, Vec<u8>) {
         let s = gen::gen_huge_session(r);
         return ("huge-binary".into(), encode_session(&s).bytes);
     }
+    if i % 16 == 5 && !small {
+        // A stream whose total length lands on / next to the size of the receive buffer and its doublings, made of
+        // complete responses, after which the peer stays connected and silent: the read that fills the buffer to the
+        // brim also completes the last response (run with a stream end that is an error, not EOF)
+        const EDGES: &[usize] = &[4096, 8192, 16384, 32768];
+        let edge = EDGES[r.below(if i % 32 == 5 { 2 } else { EDGES.len() })];
+        // (the buffer may or may not have been rewound behind the greeting: lengths around both)
+        let total = edge - *r.pick(&[0usize, 0, 0, 1, 2, GREETING.len(), GREETING.len() + 1]) + *r.pick(&[0usize, 0, 0, 0, 1]);
+        let mut body = Vec::new();
+        for _ in 0..r.below(3) {
+            body.extend_from_slice(b"a: 1\nOK\n");
+        }
+        if r.chance(1, 3) {
+            body.extend_from_slice(b"ACK [50@0] {play} no such song\n");
+        }
+        let n = total - body.len() - 9;
+        if r.chance(1, 3) {
+            // ... as a binary part: `binary: N\n` + N bytes + `\nOK\n`
+            let digits = format!("{}", n).len();
+            let nb = total - body.len() - (8 + digits + 1) - 4;
+            let nb = if format!("{}", nb).len() == digits { nb } else { nb - 1 };
+            body.extend_from_slice(format!("binary: {}\n", nb).as_bytes());
+            body.extend(std::iter::repeat(0xABu8).take(nb));
+            body.extend_from_slice(b"\nOK\n");
+        } else {
+            body.extend_from_slice(b"pad: ");
+            body.extend(std::iter::repeat(b'x').take(n));
+            body.extend_from_slice(b"\nOK\n");
+        }
+        return ("exact-fill".into(), body);
+    }
     let kind = if i % 10 == 9 { 100 } else { r.below(100) };
     if kind < 40 {
         let s = gen::gen_session(r, 6);
@@ -59,7 +90,8 @@ fn items_summary(items: &[Item]) -> J {
 fn first_diff(a: &[Item], b: &[Item]) -> String {
     for (i, (x, y)) in a.iter().zip(b.iter()).enumerate() {
         if x != y {
-            return format!("item {} differs: reference {} vs {}", i, x.to_json().render_compact(), y.to_json().render_compact());
+            let cut = |s: String| if s.len() > 400 { format!("{}...[{} bytes]", s.chars().take(400).collect::<String>(), s.len()) } else { s };
+            return format!("item {} differs: reference {} vs {}", i, cut(x.to_json().render_compact()), cut(y.to_json().render_compact()));
         }
     }
     format!("lengths differ: reference {} items vs {}", a.len(), b.len())
@@ -75,7 +107,10 @@ impl Property for C02 {
     fn run_case(&self, cfg: &Cfg, i: u64, acc: &mut Acc) {
         let mut r = Rng::keyed(&[cfg.seed, 2, i]);
         let (label, body) = gen_stream(&mut r, i, false);
-        let end = if r.chance(1, 8) { StreamEnd::Error(*r.pick(&[std::io::ErrorKind::ConnectionReset, std::io::ErrorKind::UnexpectedEof, std::io::ErrorKind::TimedOut, std::io::ErrorKind::Other])) } else { StreamEnd::Eof };
+        let end = if label == "exact-fill" {
+            // the peer stays silent: asking for more bytes than were sent does not return (stand-in: a timeout error)
+            StreamEnd::Error(std::io::ErrorKind::TimedOut)
+        } else if r.chance(1, 8) { StreamEnd::Error(*r.pick(&[std::io::ErrorKind::ConnectionReset, std::io::ErrorKind::UnexpectedEof, std::io::ErrorKind::TimedOut, std::io::ErrorKind::Other])) } else { StreamEnd::Eof };
         let shash = hash_bytes(&body);
         acc.inc("streams");
         acc.inc(&format!("streams_{}", label));
@@ -88,6 +123,14 @@ impl Property for C02 {
         let complete = reference.items.iter().filter(|i| matches!(i, Item::Resp(_))).count();
         for hv in &reference.hook_violations {
             acc.violation(i, None, format!("hook invariant (reference run): {}", hv), J::obj().set("stream", J::hex(&body)).set("label", label.clone()));
+        }
+        if label == "exact-fill" {
+            // this stream is made of complete responses only: all of them must come out before the peer's silence is noticed
+            let want = body.windows(4).filter(|w| w == b"\nOK\n").count() + body.windows(5).filter(|w| w == b"ACK [").count();
+            let got = reference.items.iter().filter(|i| matches!(i, Item::Resp(_))).count();
+            if got != want || !matches!(reference.items.last(), Some(Item::ErrIo(_))) {
+                acc.violation(i, None, format!("a stream of {} complete responses ({} bytes, then the peer stays silent) read in one piece by the blocking connection gave {} responses, terminal {:?}", want, body.len(), got, reference.items.last().map(|x| x.kind())), J::obj().set("stream_len", body.len() as u64).set("observed", items_summary(&reference.items)));
+            }
         }
         if let Some(Item::Panic(m)) = reference.items.last() {
             // panics are C09's business, but a panic also makes the result segmentation dependent
@@ -105,6 +148,8 @@ impl Property for C02 {
         if len <= 20_000 || cfg.tier == crate::util::Tier::Thorough {
             segs.push(Seg::Bytewise);
         }
+        // everything in one read (for the async connection; on the blocking one this is the reference once more)
+        segs.push(Seg::Whole);
         for _ in 0..8 {
             segs.push(Seg::random(&mut r, len, 32));
         }
@@ -274,7 +319,7 @@ impl Property for C02 {
     fn meta(&self, _cfg: &Cfg, _acc: &Acc) -> Meta {
         Meta {
             level: "exploration",
-            rule: "streams: encoder output of random abstract sessions, buffer-edge sessions (length 4096*2^k +-3), mutated, dictionary and random bytes; each stream is run whole on the blocking connection (reference) and then under byte-at-a-time, 8 random k-way (k<=32) and 2-way splits (every split point for streams <=1 KiB, a 512-wide window around each 2^k buffer edge plus random points otherwise) on both connection flavours (async also with spurious Pending); for every 8th stream additionally the greeting line itself is cut at each of its positions and byte by byte (connect under segmentation), the rest cut at random; a case is a (stream, segmentation, flavour) triple; non-trivial = the stream yields >=1 complete response and the segmentation has >=2 chunks; distinct = by hash of (stream bytes, cut points, flavour)".into(),
+            rule: "streams: encoder output of random abstract sessions, buffer-edge sessions (length 4096*2^k +-3), mutated, dictionary and random bytes, and (one in 16) 'exact-fill' streams of complete responses whose total length lands on or next to 4096*2^k, after which the peer stays silent (a timeout error instead of EOF: the read that fills the buffer to the brim also completes the last response, and all responses must come out before the silence is noticed); each stream is run whole on the blocking connection (reference) and then under byte-at-a-time, 8 random k-way (k<=32) and 2-way splits (every split point for streams <=1 KiB, a 512-wide window around each 2^k buffer edge plus random points otherwise) and everything in one read, on both connection flavours (async also with spurious Pending); for every 8th stream additionally the greeting line itself is cut at each of its positions and byte by byte (connect under segmentation), the rest cut at random; a case is a (stream, segmentation, flavour) triple; non-trivial = the stream yields >=1 complete response and the segmentation has >=2 chunks; distinct = by hash of (stream bytes, cut points, flavour)".into(),
             nontrivial_set: "nontrivial",
             assumptions: vec![
                 "the greeting is delivered with a read boundary right after its line feed (connect discards bytes read beyond the greeting; nothing can follow the greeting in a real session before the client has spoken)".into(),
@@ -283,7 +328,7 @@ impl Property for C02 {
             ],
             exhaustive: None,
             // (no floor on hook-derived counters: a refactoring that drops a probe must not turn into an alarm)
-            floors: vec![("streams_buffer-edge".into(), 5), ("streams_all_2way_splits_exhaustive".into(), 50)],
+            floors: vec![("streams_buffer-edge".into(), 5), ("streams_exact-fill".into(), 20), ("streams_all_2way_splits_exhaustive".into(), 50)],
             extra: vec![],
         }
     }
